@@ -455,6 +455,8 @@ package errbase
 //@   props C06 C09 C05 C03
 //@   requires s != nil && err != nil
 //@   requires redactableOutput ==> typeis(s, redact.SafePrinter)
+// %#v (with or without '+'): the Go-syntax dump, as fmt gives '#' precedence over '+'
+//@   ensures[C09] !redactableOutput && verb == 'v' && stFlag(s, '#') && !(stHasWidth(s) && stWidth(s) > 0) && !stHasPrec(s) ==> $out == old($out) + goSyn(err)
 //@   ensures[C09] !(verb == 'v' && stFlag(s, '+') && !stFlag(s, '#')) && !(!redactableOutput && verb == 'v' && stFlag(s, '#')) && !(verb == 's' || (verb == 'v' && !stFlag(s, '#')) || (!redactableOutput && (verb == 'x' || verb == 'X' || verb == 'q'))) ==> $out == old($out) + "%!" + charStr(verb) + "(" + typeString(typeof(err)) + ")"
 
 // finishDisplay (C09: width / precision / verb handling; C06: what is handed to redact as
